@@ -265,7 +265,7 @@ def run(ctx):
     ]
     ctx.cov["partial"].append({"theorem": "C12_bound_legacy_partial / C12_bound_current",
                                "excluded": "under the legacy rule: bounds that are resolved identifiers (constants, attributes, derived attributes) — there the output does depend on an address (C12_bound_legacy_witness)"})
-    ctx.lean("StepModel.Props.C12", exes=["m_c12"], extractors=["genbound", "scanner"])
+    ctx.lean("StepModel.Props.C12", exes=["m_c12"], extractors=["genbound", "scanner", "exphash"])
     b = ctx.build("plain")
     model_exe = ctx.model_exe("m_c12")
     if not os.path.exists(model_exe):
@@ -315,7 +315,7 @@ def replay(ctx, path):
     d = json.load(open(path))
     r = d.get("replay", d)
     ctx._disagree = []
-    ctx.lean("StepModel.Props.C12", exes=["m_c12"], extractors=["genbound", "scanner"])
+    ctx.lean("StepModel.Props.C12", exes=["m_c12"], extractors=["genbound", "scanner", "exphash"])
     b = ctx.build("plain")
     cfgs = [Config(**{k: v for k, v in c.items()}) for c in r["configurations"]]
     if r["express"].startswith("<shipped file"):
